@@ -667,6 +667,29 @@ class SR(_NpScalarAPI):
     def __rtruediv__(self, o):
         return tor(o) / self
 
+    def __mod__(self, o):
+        """Python's float %: x - y*floor(x/y) (sign of the divisor)"""
+        o = tor(o)
+        if o is NotImplemented:
+            return NotImplemented
+        if self.concrete and o.concrete and not self.inf and not o.inf and not self.nan and not o.nan and o.v != 0:
+            q = self.v / o.v
+            fl = q.numerator // q.denominator
+            return SR(self.v - o.v * fl)
+        if self.inf or o.inf:
+            raise NotImplementedError("% with an infinity")
+        q = zr(self.v) / zr(o.v)
+        return SR(zr(self.v) - zr(o.v) * z3.ToReal(z3.ToInt(q)), b_or(self.nan, o.nan, zr(o.v) == 0))
+
+    def __rmod__(self, o):
+        return tor(o) % self
+
+    def __floordiv__(self, o):
+        o = tor(o)
+        if o is NotImplemented:
+            return NotImplemented
+        return SR(z3.ToReal(z3.ToInt(zr(self.v) / zr(o.v))), b_or(self.nan, o.nan, zr(o.v) == 0))
+
     def __pow__(self, k):
         if isinstance(k, SR) and k.concrete:
             k = k.to_float()
@@ -971,6 +994,32 @@ class SF:
 
     def __neg__(s):
         return SF(z3.fpNeg(s.t))
+
+    def __mod__(s, o):
+        """Python's float % for a concrete positive divisor y: fmod is exact, x % y = x - k*y with
+        k = floor(x/y).  The path forks over k (fpRem bit-blasts too slowly); the comparisons and the
+        subtraction are exact in the reals and the result is a double by the fmod theorem."""
+        if isinstance(o, SF):
+            raise NotImplementedError("% by a symbolic double")
+        y = Fraction(float(o))
+        if y <= 0:
+            raise NotImplementedError("% by a non-positive value")
+        c = ctx()
+        yf = float(o)
+
+        def ceil_double(fr):
+            """smallest double >= the rational fr"""
+            d = float(fr)
+            if Fraction(d) < fr:
+                d = math.nextafter(d, math.inf)
+            return d
+
+        for k in range(0, SF_INT_MAX + 2):
+            lo, hi = ceil_double(k * y), ceil_double((k + 1) * y)
+            if c.branch(z3.And(z3.fpGEQ(s.t, fpv(lo)), z3.fpLT(s.t, fpv(hi)))):
+                # x - k*y is exactly representable (fmod theorem): one fused operation, no rounding error
+                return SF(z3.fpFMA(_RNE, fpv(-float(k)), fpv(yf), s.t))
+        raise PathAbort("SF modulo quotient outside range")
 
     def __lt__(s, o):
         return SB(z3.fpLT(s.t, SF._t(o)))
